@@ -16,7 +16,7 @@ def nontrivial(kind, st, r):
         return g("m") >= 2 and g("reach") >= 2
     if kind in ("dfs", "kahn", "scc", "topo"):
         return g("n") >= 3 and g("m") >= 2
-    if kind == "convseq":
+    if kind in ("convseq", "race"):
         return True
     if kind in ("sig", "vset", "opts", "result"):
         return g("size", 1) >= 1
@@ -191,6 +191,15 @@ PROPS = {
         "note": "partial: the concurrent clause is decided by exploration under the race detector.",
         "theorems": ["ArgMapper.C11.once_at_most_once", "ArgMapper.C11.first_result_kept", "ArgMapper.C11.memo_hit", "ArgMapper.C11.reuse_never_panics", "ArgMapper.C11.counterexample_ptr_result"], "facts": {"r5SkipSame": "true", "r6NameTest": "true", "publishAfterUpdate": "true", "trackReaching": "true", "takeValuedNamed": "true", "memoCopy": "true", "r8SkipSupplied": "true", "skipRecordsInput": "false", "dupIsError": "true"},
         "rule": "hist: a run-once function was needed at least once.",
-        "runs": {"quick": [fam("hist", 800, 0)], "thorough": [fam("hist", 60000, 0)]},
+        "runs": {"quick": [fam("hist", 800, 0), fam("race", 60, 4, "20", bin="harness-race")],
+                 "thorough": [fam("hist", 60000, 0), fam("race", 2000, 8, "60", bin="harness-race"), fam("race", 500, 16, "40", bin="harness-race")]},
+    },
+    "C12": {
+        "claim": "(theorems pending) Functions, converters and options can be shared by concurrent calls. Decided by exploration under the Go race detector: goroutines Call / Convert / Redefine with one shared target, shared converter objects (run-once ones included) and one shared option slice built from every option constructor; any race report is a violation, and every concurrent outcome must be one a sequential run of the same call produced.",
+        "note": "partial: schedules are sampled by the Go scheduler, not enumerated; the lock-discipline theorem over the extracted effects table is the proof-side obligation (DESIGN.md C12).",
+        "theorems": [], "facts": {"r5SkipSame": "true", "r6NameTest": "true", "publishAfterUpdate": "true", "trackReaching": "true", "takeValuedNamed": "true", "memoCopy": "true", "r8SkipSupplied": "true", "skipRecordsInput": "false", "dupIsError": "true"},
+        "rule": "race: every scenario (>= 4 goroutines x >= 20 rounds of Call/Convert/Redefine on shared objects).",
+        "runs": {"quick": [fam("race", 80, 4, "25", bin="harness-race")],
+                 "thorough": [fam("race", 3000, 8, "60", bin="harness-race"), fam("race", 600, 16, "50", bin="harness-race")]},
     },
 }
